@@ -97,6 +97,7 @@ class NFEval:
         self.opaque_count = 0
         self.sums = {}            # atom key -> Sum (for flattening c*(a+b) inside sums)
         self.funcs = {}           # atom key -> (function name, argument normal form) for atoms that can be differentiated
+        self.derivs = {}          # atom key -> {variable key: normal form}: declared derivatives of function symbols (ODE right-hand sides)
         self.factor_symbolic = False   # opt-in: sum atoms are made with the symbolic powers of their first term factored out
         self.sample = None        # optional {atom key: number}: a point of the domain, used to orient sum atoms
 
@@ -389,6 +390,10 @@ class NFEval:
         for k, e in x.f.items():
             if k == key:
                 dk = self.num(1)
+            elif k in self.derivs and key in self.derivs[k]:
+                dk = self.derivs[k][key]
+                if self.is_zero(dk):
+                    continue
             elif k in self.sums:
                 dk = self.diff(self.sums[k], key, depth + 1)
                 if self.is_zero(dk):
